@@ -234,7 +234,7 @@ pub fn check_lookups(v: &Value, r: &RVal) -> Result<u64, String> {
 
 /// For every byte offset of `s` that is a character boundary (and `s.len()`),
 /// the offset of that boundary when characters have the lengths given by `w`.
-fn width_offsets(s: &str, w: real::Widths) -> Vec<usize> {
+pub fn width_offsets(s: &str, w: real::Widths) -> Vec<usize> {
 	let mut v = vec![usize::MAX; s.len() + 1];
 	let mut u = 0usize;
 	for (i, c) in s.char_indices() {
